@@ -582,7 +582,7 @@ func init() {
 		Random:      c20Random,
 		RandomCount: func(tier string) int { return map[string]int{"quick": 2500, "thorough": 200000}[tier] },
 		Eval:        c20Eval,
-		Rule: "sessions = every pool line alone, every ordered pair of the pool lines (about 80) (valid statements, bare expressions, silent statements, lexical / syntax / runtime errors incl. errors inside loops, blocks and functions on one line), swept completely; plus seeded random sessions of 2..12 lines under 1..3 stdin delivery schedules, some with EIO injected mid-session. Response i = stdout+stderr between marker lines; oracle = the same line's response as first line of a fresh session. " +
+		Rule: "sessions = every pool line alone, every ordered pair of the " + fmt.Sprint(len(c20Pool)) + " pool lines (valid statements, bare expressions, silent statements, lexical / syntax / runtime errors incl. errors inside loops, blocks and functions on one line), swept completely; every failing line 4 and 40 times followed by probe lines; every confirmed built-in misuse and a fifth of the operator misuses as lines; resource-exhausting lines in processes of their own; two 1500-line marathons over the whole pool; plus seeded random sessions of 2..60 lines (a quarter of the lines drawn from the grammar) under 1..3 stdin delivery schedules, some with EIO injected mid-session. Response i = stdout+stderr between marker lines; oracle = the same line's response as first line of a fresh session. " +
 			"distinct_nontrivial counts distinct sequences of line classes among sessions that contain at least one failing line followed by at least one judged line.",
 		DistinctSet: "c20_class_sequences",
 		Assumptions: []string{
